@@ -22,7 +22,7 @@ Definition ex_prog2 : program :=
          [20] [(21, ECall 1 [EVar 20])]
          [ ECall 2 [EVar 21]; EBin OAdd (ECall 2 [ECall 1 [ELit 2]]) (EVar 21) ].
 
-(* finding F2: fn cnt(i){ self + i }  fn dsp(){ if (cnt(1)) cnt(10) else cnt(100) } *)
+(* the witness of finding F2 (repaired): fn cnt(i){ self + i }  fn dsp(){ if (cnt(1)) cnt(10) else cnt(100) } *)
 Definition f2_prog : program :=
   mkProg [ mkFun 1 [10] (EBin OAdd ESelf (EVar 10)) ] [] []
          [ EIf (ECall 1 [ELit 1]) (ECall 1 [ELit 10]) (ECall 1 [ELit 100]) ].
@@ -44,14 +44,30 @@ Lemma ex_prog_run :
   = [Some [0; 48000]; Some [2; 48000]; Some [5; 48000]; Some [8; 48000]]%Z.
 Proof. vm_compute. reflexivity. Qed.
 
-Lemma f2_refuted : exists p cp,
-  compile p = Some cp /\ wf_prog p = false /\ mach_step VmD p cp 0%Z [] m0 = None.
-Proof. exists f2_prog, (compiled f2_prog). vm_compute. auto. Qed.
+(* the former F2 witness now behaves: wf, never faults, and produces the reference stream *)
+Lemma f2_prog_wf : wf_prog f2_prog = true.
+Proof. vm_compute. reflexivity. Qed.
+Lemma f2_prog_compiles : compile f2_prog = Some (compiled f2_prog).
+Proof. vm_compute. reflexivity. Qed.
+Lemma f2_prog_skeleton :
+  published_skeleton (compiled f2_prog) = FnCall [FnCall [Feed 1]; FnCall [Feed 1]; FnCall [Feed 1]].
+Proof. vm_compute. reflexivity. Qed.
+Lemma f2_prog_runs :
+  outs_of (mach_run VmD f2_prog (compiled f2_prog) 0 [[]; []; []] m0) = [Some [10]; Some [20]; Some [30]]%Z /\
+  option_map fst (ref_run f2_prog 0 [[]; []; []] st0) = Some [[10]; [20]; [30]]%Z.
+Proof. vm_compute. auto. Qed.
 
-Lemma f2_differs : exists p cp,
-  compile p = Some cp /\ In None (mach_run VmD p cp 0%Z [[]] m0) /\ ~ In None (mach_run WasmD p cp 0%Z [[]] m0).
+(* outside wf the two disciplines may differ: a redefined function name makes a call site that was
+   compiled as stateless run a stateful body without storage: the VM faults, WASM grows the storage *)
+Definition dup_prog : program :=
+  mkProg [ mkFun 1 [10] (EVar 10); mkFun 2 [11] (ECall 1 [EVar 11]); mkFun 1 [10] (EMem (EVar 10)) ] [] []
+         [ ECall 2 [ELit 1] ].
+
+Lemma disciplines_differ_outside_wf : exists p cp,
+  compile p = Some cp /\ wf_prog p = false /\
+  In None (mach_run VmD p cp 0%Z [[]] m0) /\ ~ In None (mach_run WasmD p cp 0%Z [[]] m0).
 Proof.
-  exists f2_prog, (compiled f2_prog). split; [vm_compute; reflexivity|]. split.
+  exists dup_prog, (compiled dup_prog). split; [vm_compute; reflexivity|]. split; [vm_compute; reflexivity|]. split.
   - vm_compute. auto.
   - vm_compute. intros [H|[]]. discriminate.
 Qed.
